@@ -126,6 +126,8 @@ theorem C02_history_no_memory (cfg : Cfg) : ∀ (evs : List Event) (sh : Shape),
     cases ev with
     | step s => simp only [runHistory, statesOf]; exact ih _
     | req r => simp only [runHistory, statesOf, List.map_cons]; rw [ih]
+    | resetMeta => simp only [runHistory, statesOf]; exact ih _
+    | getMeta => simp only [runHistory, statesOf]; exact ih _
 
 /-- **C02_history_sound.**  In every history of run-time changes and requests, whatever target code a request
     runs is code of a member that a requested public name denotes, exposed, *in the state the object has at
@@ -134,6 +136,18 @@ theorem C02_history_sound (cfg : Cfg) (hf : Fixed cfg) (sh : Shape) (evs : List 
     (hh : ∀ p ∈ statesOf sh evs, NoExposedHelperAttr p.1) :
     ∀ p ∈ statesOf sh evs, ∀ e ∈ (dispatch cfg p.1 p.2).2, Justified p.1 (reqNames p.2) e :=
   fun p hp => C02_served_sound cfg p.1 p.2 hf (hh p hp)
+
+/-- **C02_metadata_cache.**  What is advertised along a history: a cached list is repeated unchanged whatever happened
+    to the object since (documented: the cache is per class), but after `resetMetadataCache` the next advertisement is
+    the member list *of the object's state at that moment* — for every kind of registered object — and hence, by
+    `C02_metadata_exact`, again exactly the set of names served. -/
+theorem C02_metadata_cache (sh : Shape) (rest : List Event) (m : Meta) (c : Option Meta) :
+    advertised (some m) sh (.getMeta :: rest) = m :: advertised (some m) sh rest ∧
+    advertised c sh (.resetMeta :: .getMeta :: rest) = metadata sh :: advertised (some (metadata sh)) sh rest ∧
+    (∀ s, advertised c sh (.step s :: rest) = advertised c (applyStep sh s) rest) ∧
+    (∀ r, advertised c sh (.req r :: rest) = advertised c sh rest) := by
+  refine ⟨rfl, ?_, fun _ => rfl, fun _ => rfl⟩
+  cases c <;> rfl
 
 /-- **C02_served_complete.**  The gate serves what is exposed: a call of an exposed public method (not
     hidden by an instance attribute) runs exactly that method; reading an exposed public property runs
